@@ -512,6 +512,16 @@ def check(run: Run):
         if r != len(tr):
             key, what = describe(tr, r)
             run.violation(key, what, {"trace": tr, "failing_event": r + 1})
+    # the rule language of the shape validators themselves
+    run.add_model(run_tlc(run, "MC_ShapeRules", "MC_ShapeRules.cfg", workers=4, timeout=600, tag="MC_ShapeRules"))
+    sev = shape_rule_events(rng, run.thorough())
+    sreached = validate_traces(run, "Trace_ShapeRules", [[e] for e in sev], chunk=8000)
+    for e, r in zip(sev, sreached):
+        run.count()
+        run.distinct(hash(json.dumps(e, sort_keys=True)))
+        if r != 1:
+            run.violation(f"validate_shape rules={[x[0] for x in e['reqs']]} rank={len(e['shape'])} -> {e['out']}", json.dumps(e), {"trace": [e], "failing_event": 1})
+    run.notes["shape_rule_cases"] = len(sev)
     for tr in (traces[0], traces[ntree - 1], traces[nmo - 1], traces[-1]):
         run.sample(tr)
     run.assumptions += [
@@ -521,6 +531,49 @@ def check(run: Run):
     ]
 
 
+# ------------------------------------------------------------------ the shape-rule language (spec/ShapeRules.tla)
+def shape_rule_events(rng, thorough):
+    """Every rule sequence x observed shape x object of the bounded universe of ShapeRules.tla, through the real validator."""
+    import itertools
+    from iodata.attrutils import validate_shape
+    reqs1 = [("int", 0), ("int", 1), ("int", 2), ("any",), ("attr", "n"), ("axis", "a", 0), ("axis", "a", 1), ("axis", "a", 2)]
+    seqs = [[r] for r in reqs1] + [[r, q] for r in reqs1 for q in reqs1]
+    shapes = [list(s) for n in (1, 2, 3) for s in itertools.product(range(3), repeat=n)]
+    others = [None, (1,), (2,), (1, 2), (2, 0), (2, 1, 2)]
+    ints = [None, 0, 1, 2]
+
+    class Obj:
+        pass
+
+    class Attr:
+        name = "value"
+
+    def native(r):
+        return r[1] if r[0] == "int" else None if r[0] == "any" else r[1] if r[0] == "attr" else (r[1], r[2])
+
+    cases = [(sq, sh, n, a) for sq in seqs for sh in shapes for n in ints for a in others]
+    if not thorough:
+        cases = rng.sample(cases, 12000)
+    evs = []
+    for sq, sh, n, a in cases:
+        o = Obj()
+        o.n = n
+        o.a = None if a is None else np.zeros(a)
+        value = np.zeros(sh)
+        if len(sh) == 1 and rng.random() < 0.3:
+            value = [0.0] * sh[0]                 # a plain iterable: only its length is known
+        try:
+            validate_shape(*[native(r) for r in sq])(o, Attr(), value)
+            out = "ok"
+        except TypeError:
+            out = "TypeError"
+        except Exception as exc:  # noqa: BLE001
+            out = "other:" + type(exc).__name__
+        evs.append({"op": "ShapeRule", "reqs": [list(r) for r in sq], "shape": sh,
+                    "obj": {"n": [] if n is None else ["int", n], "a": [] if a is None else ["arr", list(a)]}, "out": out})
+    return evs
+
+
 def replay(rec):
     tr = rec["detail"]["trace"]
     print("recorded trace (failing event %d):" % rec["detail"]["failing_event"])
@@ -528,8 +581,8 @@ def replay(rec):
         print("  ", {k: e[k] for k in e if k != "obs"})
     run = Run("C12", "quick", 0, LEVEL)
     # re-execute
-    if tr[0]["op"] == "ShellSet":
-        print("re-run ./check C12 to re-execute shell assignments")
+    if tr[0]["op"] in ("ShellSet", "ShapeRule"):
+        print("re-run ./check C12 to re-execute shell assignments / shape rules")
         return 1
     if tr[0]["op"] == "Shell":
         c = tr[0]["c"]
